@@ -591,6 +591,11 @@ func (r *resolver) stmt(stmt syntax.Stmt) {
 			id := stmt.To[i]
 			if r.options.LoadBindsGlobally {
 				r.bind(id)
+			} else if prev, ok := r.globals[id.Name]; ok && !r.options.GlobalReassign {
+				// The sets of names bound in the file block
+				// and in the module block do not overlap.
+				r.errorf(id.NamePos, "cannot reassign global %s declared at %s",
+					id.Name, prev.First.NamePos)
 			} else if r.bindLocal(id) && !r.options.GlobalReassign {
 				// "Global" in AllowGlobalReassign is a misnomer for "toplevel".
 				// Sadly we can't report the previous declaration
